@@ -1,6 +1,8 @@
 (* C14 — per-tag attribute rules are enforced exactly. *)
 From hls Require Import Base Float Lex Kinds Types Tags Line Keys Media Master.
-From hls.Proofs Require Import Build C14 AttrOrder.
+From hls.Generated Require Import Tables.
+From hls.Proofs Require Import Build C14 AttrOrder AttrTables.
+From Coq Require Import String.
 From Coq Require Import Permutation.
 Open Scope N_scope.
 
@@ -74,6 +76,46 @@ Proof. exact session_data_attr_order. Qed.
 Check C14_order_free : forall l1 l2, Permutation l1 l2 -> NoDup (map fst l1) ->
   forall a, fold_res xs_attr l1 a = fold_res xs_attr l2 a.
 Print Assumptions C14_order_free.
+
+(* the attribute names every attribute-list parser of the SOURCE matches (and how it treats the value:
+   unquote / parse / yes-no, fallible or not), and the names and quoting every Display impl writes, as
+   read by the translator on this run, are the ones the model was written against *)
+Theorem C14_attr_tables :
+  attr_section_ok = true /\ parser_attr_table = expected_parser_attr_table
+  /\ display_attr_table = expected_display_attr_table.
+Proof. exact attr_tables_as_modelled. Qed.
+Check C14_attr_tables :
+  attr_section_ok = true /\ parser_attr_table = expected_parser_attr_table
+  /\ display_attr_table = expected_display_attr_table.
+Print Assumptions C14_attr_tables.
+
+(* ... and the model's attribute functions look at exactly those names: any other attribute is
+   ignored (RFC 8216 6.3.1), for every value and every accumulator *)
+Theorem C14_other_attributes_ignored :
+  (forall a k v, existsb (str_eqb k) (names_of "ExtXMedia") = false -> xm_attr a (k, v) = Ok a)
+  /\ (forall a k v, existsb (str_eqb k) (names_of "ExtXSessionData") = false -> xs_attr a (k, v) = Ok a)
+  /\ (forall a k v, existsb (str_eqb k) (names_of "DecryptionKey") = false -> key_attr a (k, v) = Ok a)
+  /\ (forall a k v, existsb (str_eqb k) (names_of "StreamData") = false -> sd_attr a (k, v) = Ok a)
+  /\ (forall a k v, existsb (str_eqb k) (names_of "VariantStream") = false -> si_attr a (k, v) = Ok a)
+  /\ (forall a k v, existsb (str_eqb k) (names_of "ExtXStart") = false -> start_attr a (k, v) = Ok a)
+  /\ (forall a k v, existsb (str_eqb k) (names_of "ExtXMap") = false -> map_attr a (k, v) = Ok a)
+  /\ (forall a k v, existsb (str_eqb k) (names_of "ExtXDateRange") = false -> starts_with s_Xdash k = false ->
+        dr_attr a (k, v) = Ok a).
+Proof.
+  repeat split; [exact xm_attr_ignores | exact xs_attr_ignores | exact key_attr_ignores | exact sd_attr_ignores
+                | exact si_attr_ignores | exact start_attr_ignores | exact map_attr_ignores | exact dr_attr_ignores].
+Qed.
+Check C14_other_attributes_ignored :
+  (forall a k v, existsb (str_eqb k) (names_of "ExtXMedia") = false -> xm_attr a (k, v) = Ok a)
+  /\ (forall a k v, existsb (str_eqb k) (names_of "ExtXSessionData") = false -> xs_attr a (k, v) = Ok a)
+  /\ (forall a k v, existsb (str_eqb k) (names_of "DecryptionKey") = false -> key_attr a (k, v) = Ok a)
+  /\ (forall a k v, existsb (str_eqb k) (names_of "StreamData") = false -> sd_attr a (k, v) = Ok a)
+  /\ (forall a k v, existsb (str_eqb k) (names_of "VariantStream") = false -> si_attr a (k, v) = Ok a)
+  /\ (forall a k v, existsb (str_eqb k) (names_of "ExtXStart") = false -> start_attr a (k, v) = Ok a)
+  /\ (forall a k v, existsb (str_eqb k) (names_of "ExtXMap") = false -> map_attr a (k, v) = Ok a)
+  /\ (forall a k v, existsb (str_eqb k) (names_of "ExtXDateRange") = false -> starts_with s_Xdash k = false ->
+        dr_attr a (k, v) = Ok a).
+Print Assumptions C14_other_attributes_ignored.
 
 Example C14_example :
   is_err (parse_xmedia (lit "#EXT-X-MEDIA:TYPE=CLOSED-CAPTIONS,GROUP-ID=""c"",NAME=""n"",INSTREAM-ID=""CC1"",FORCED=YES")) = true
